@@ -209,6 +209,73 @@ pub fn bias_frame(number: u16, p: u64, variant: usize) -> Vec<u8> {
     crc::frame(&b.into_bytes())
 }
 
+/// One satellite (one mask for 1230) with several biases: neighbouring entries hold the given patterns.
+pub fn bias_frame_multi(number: u16, pats: &[u64], variant: usize) -> Vec<u8> {
+    let mut b = bits::BitBuf::new();
+    b.push(number as u128, 12);
+    let k = pats.len();
+    match number {
+        1059 => {
+            b.push(0, 49);
+            b.push(1, 6);
+            b.push((variant % 64) as u128, 6);
+            b.push(k as u128, 5);
+            let sigs = [0u8, 1, 2, 5, 6, 7, 8, 9, 10, 11, 14, 15];
+            for (i, p) in pats.iter().enumerate() {
+                b.push(sigs[i % sigs.len()] as u128, 5);
+                b.push(*p as u128, 14);
+            }
+        }
+        1065 => {
+            b.push(0, 46);
+            b.push(1, 6);
+            b.push((variant % 32) as u128, 5);
+            b.push(k as u128, 5);
+            for (i, p) in pats.iter().enumerate() {
+                b.push((i % 4) as u128, 5);
+                b.push(*p as u128, 14);
+            }
+        }
+        _ => {
+            b.push(0, 13);
+            b.push(((0xFu128 << (4 - k.min(4))) & 0xF) as u128, 4);
+            for p in pats.iter().take(4) {
+                b.push(*p as u128, 16);
+            }
+        }
+    }
+    crc::frame(&b.into_bytes())
+}
+
+/// Entries that follow each other in one list: each bias must come back as its own pattern whatever its
+/// neighbour holds (equal, one step up, one step down, far away).  Added after seeded change C08-R11.
+fn check_bias_neighbours(ctx: &mut Ctx, number: u16, pats: &[u64], variant: usize) {
+    ctx.eval();
+    let f = bias_frame_multi(number, pats, variant);
+    let replay = || json!({"kind":"bias_neighbours","number":number,"patterns":pats.iter().map(|p| p.to_string()).collect::<Vec<_>>(),"variant":variant});
+    let r = guard(|| {
+        let mf = MessageFrame::new(&f).ok()?;
+        let m = mf.get_message();
+        let mut b = MessageBuilder::new();
+        let out = b.build_message(&m).ok().map(|x| x.to_vec());
+        Some((crate::framing::msg_class(&m), out))
+    });
+    match r {
+        Err(pn) => ctx.panic_violation("C08.no_panic", &pn, &format!("bias codec of {} patterns {:?}", number, pats), replay()),
+        Ok(None) => ctx.violation(format!("C08.bias_frame_rejected|{}", number), "C08.bias_frame_rejected", "reference-built frame rejected".into(), replay()),
+        Ok(Some((class, out))) => {
+            if out.as_deref() != Some(&f[..]) {
+                ctx.violation(
+                    format!("C08.bias_roundtrip|{}|neighbouring_entries", number),
+                    "C08.bias_roundtrip",
+                    format!("message {} with neighbouring bias patterns {:x?}: decoded as {}, re-encoded {:?}, original {}", number, pats, class, out.map(|x| crate::mon::hex(&x)), crate::mon::hex(&f)),
+                    replay(),
+                );
+            }
+        }
+    }
+}
+
 fn check_bias_pattern(ctx: &mut Ctx, number: u16, p: u64, variant: usize) {
     ctx.eval();
     let f = bias_frame(number, p, variant);
@@ -560,6 +627,23 @@ pub fn run(p: &Params) -> Outcome {
             }
             ctx.nontrivial_enumerated(1u64 << w);
             ctx.count_dyn_n(format!("patterns_exhaustive:msg{}_bias", number), 1u64 << w);
+            // every pattern next to its neighbours on the grid, in one list
+            let mask = (1u64 << w) - 1;
+            let kmax = if number == 1059 { 12 } else { 4 };
+            for pat in 0..(1u64 << w) {
+                let up = (pat + 1) & mask;
+                check_bias_neighbours(ctx, number, &[pat, up], (pat % 89) as usize);
+                check_bias_neighbours(ctx, number, &[up, pat], (pat % 83) as usize);
+                if pat % 4 == 0 {
+                    check_bias_neighbours(ctx, number, &[pat, pat, up, (pat + 2) & mask], (pat % 79) as usize);
+                    check_bias_neighbours(ctx, number, &[pat, pat ^ (1 << (w - 1)), pat], (pat % 73) as usize);
+                }
+                if pat % 64 == 0 {
+                    let run: Vec<u64> = (0..kmax as u64).map(|i| (pat + i) & mask).collect();
+                    check_bias_neighbours(ctx, number, &run, (pat % 71) as usize);
+                }
+                ctx.count_dyn(format!("bias_patterns_next_to_their_grid_neighbours:msg{}", number));
+            }
         }
     });
     // post-merge: exactly one absent pattern per exhaustively enumerated optional field
@@ -587,7 +671,7 @@ pub fn run(p: &Params) -> Outcome {
     let all_exh = FIELDS.iter().all(|f| f.len <= exhaustive_max);
     Outcome {
         ctx: total,
-        rule: format!("{} df! fields scanned from the tree; every pattern for w <= {}, boundaries + one-hot neighbourhoods + word-carry patterns (low 32 / low 16 bits all zero, all ones, one) + {} stratified samples for wider fields; 1059/1065/1230 bias codecs through one-entry frames; sequences of 2..6 fields through one assembler and one parser (related fields, neighbouring fields given equal real values where both grids hold them) compared with each field on its own; oracle: pattern == encode(decode(pattern)) (sign-magnitude negative zero -> zero), widths, exactly one absent pattern, finiteness; enumerated patterns are distinct by construction (counted exactly)", N_FIELDS_SCANNED, exhaustive_max, n_samples),
+        rule: format!("{} df! fields scanned from the tree; every pattern for w <= {}, boundaries + one-hot neighbourhoods + word-carry patterns (low 32 / low 16 bits all zero, all ones, one) + {} stratified samples for wider fields; 1059/1065/1230 bias codecs through one-entry frames and through lists in which every pattern sits next to its grid neighbours; sequences of 2..6 fields through one assembler and one parser (related fields, neighbouring fields given equal real values where both grids hold them) compared with each field on its own; oracle: pattern == encode(decode(pattern)) (sign-magnitude negative zero -> zero), widths, exactly one absent pattern, finiteness; enumerated patterns are distinct by construction (counted exactly)", N_FIELDS_SCANNED, exhaustive_max, n_samples),
         exhaustive: all_exh,
         extra: json!({"fields_scanned": N_FIELDS_SCANNED, "fields_exhaustive": n_exh, "optional_fields_exhaustive": n_opt, "hook": "rtcm_rs::verif_hooks::dfs"}),
     }
@@ -632,6 +716,11 @@ pub fn replay(_p: &Params, v: &Value) -> Outcome {
             let n = v["number"].as_u64().unwrap_or(1059) as u16;
             let p: u64 = v["pattern"].as_str().and_then(|s| s.parse().ok()).unwrap_or(0);
             check_bias_pattern(&mut ctx, n, p, v["variant"].as_u64().unwrap_or(0) as usize);
+        }
+        "bias_neighbours" => {
+            let n = v["number"].as_u64().unwrap_or(1059) as u16;
+            let pats: Vec<u64> = v["patterns"].as_array().map(|a| a.iter().filter_map(|x| x.as_str()?.parse().ok()).collect()).unwrap_or_default();
+            check_bias_neighbours(&mut ctx, n, &pats, v["variant"].as_u64().unwrap_or(0) as usize);
         }
         k => ctx.inconclusive(format!("unknown replay kind {}", k)),
     }
